@@ -465,6 +465,17 @@ def correspond(ctx):
     ctx.count('regress-F42', key='F42')
     if bad:       # F42 was fixed in /repo: an ordinary violation if it comes back
         ctx.violation('embedded-vs-posthoc', wit, True, bad)
+    # (x3) regression F46 (fixed): PropagatePositions on an inlined ?rule whose result is a child with empty meta
+    wit = {'grammar': '?start: _E t1{A}\nt1{p}: p | p p*\nA: "a"\n_E: "e"\n', 'text': 'eaaaa', 'keep_all_tokens': False,
+           'maybe_placeholders': True, 'base': 'Transformer', 'variant': 'plain', 'rules': [], 'toks': ['A'], 'choices': [],
+           'mode': 'default', 'propagate_positions': True}
+    ctx.count('regress-F46', key='F46')
+    try:
+        bad = embedded_vs_posthoc(wit)[0]
+    except Exception as ex:
+        bad = 'raised %r' % (ex,)
+    if bad:
+        ctx.violation('embedded-vs-posthoc', wit, True, bad)
     # (x) exotic: a Transformer_InPlace subclass as embedded transformer (create_callback passes a Tree) ------------
     g = 'start: a B\na: A\nA: "a"\nB: "b"\n'
     wit = {'grammar': g, 'text': 'ab', 'keep_all_tokens': False, 'maybe_placeholders': True, 'base': 'Transformer_InPlace',
